@@ -20,6 +20,7 @@ ANCHORS = ["src/tickit/utils/topic_naming.py", "src/tickit/core/management/sched
            "src/tickit/core/state_interfaces/internal.py", "src/tickit/adapters/epics.py", "src/tickit/core/components/device_component.py"]
 TECHNIQUE = 'Lean 4 theorems (distinct components never share a topic - over constants regenerated from the code; a tick touches only the extent of its roots and never stalls on an acyclic wiring; projection of a tick onto a disconnected part) + differential runs of the real code: configuration vs configuration extended by a disconnected part, incl. the shipped EPICS and command adapter classes'
 LEVEL_TEXT = "ADAPTERS (Props/C10Epics, model Core/Epics of DeviceComponent.on_tick + AdapterContainer + the shipped EpicsAdapter with per-instance record tables): for every configuration, initial state and update history each adapter is notified exactly once per update of its own device and never for another device's update; the notifications and record writes of component c's adapters depend only on the sub-history of c's own updates (adding or removing any other component changes nothing), every write goes to a record of the adapter's own table with its own device's value; with the pre-repair class-level table this provably fails (a record of a is written during an update of b). The model is compared on every run with the real DeviceComponent + EpicsAdapter on generated configurations and histories. TICKS: Proved over the ticker model, for every wiring, reaction function and pair of answer orders: if no wire connects a set A of components to the rest, every component of A receives in a complete tick of the whole simulation exactly the dispatch it receives in the same tick of A alone (rank induction; the rest may do anything) - adding or removing a disconnected device, chain or system changes nothing for A; roots inside A never drag in anything outside A; the union of two well-formed wirings over disjoint components has each as such a part (so the hypothesis is satisfiable in general); the whole never stalls on an acyclic wiring; input/output topics of distinct components are pairwise distinct, over affixes re-extracted from topic_naming.py on every run. Over MANY ticks (part_run_same, part_run_same_any, part_run_same_append; flat multi-tick system, callbacks, devices that may behave differently at every tick, every answer order): every run of a configuration extended by a disconnected part projects onto a run of the configuration alone whose ticks are ticks of the extended run, with the SAME observation sequence for every component of the configuration - the extension only adds ticks in which nothing of the base is updated - and by schedule independence that is the observation sequence of every run of the base alone. PARTIAL: multi-tick histories with interrupt stamps (the 1-ns floor effect of non-integral elapsed*speed) and adapter notifications are validated, not proved: each base configuration is run alone and extended by a periodic device, a chain, a sibling system, a depth-2 system, a device with the shipped EpicsAdapter, a device with a CommandAdapter subclass and a disconnected device inside one of its own systems, under two buses: the base part's observation sequences, adapter notification logs and EPICS record refreshes must be identical and the run must not stall; every adapter is notified exactly once per update of its own device."
+LEVEL_ADDENDUM = "Session 8: adapters on SYSTEM simulations (BaseSystemSimulationAdapter at depth 1 and 2) are handed their own system's components and wiring before their io runs, serve for the whole run, and their interrupt makes the master tick that system; bases at the scale of seconds / hours and an extension whose wakeups fall 25 ns per period before a base device's; the EPICS io hands every adapter the raise_interrupt of its own component."
 LEVEL_NOTE = 'Trusts: Lean kernel; hand-written models; EPICS/command adapters are driven without a network (record setters are recorders).'
 ASSUMPTIONS = ['the added part shares no wire and no name with the base']
 
